@@ -546,6 +546,30 @@ Proof.
   apply Z.mod_divide; [lia|]. apply Z.divide_add_r; auto. eapply Z.divide_trans; eauto.
 Qed.
 
+(* ---------------------------------------------------------------- embed_const_pool: where the label and the constants end up *)
+Theorem embed_layout_thm cmds pre : wf_cmds cmds -> guard cmds -> 0 <= pre ->
+  let p := final cmds in
+  let lab := fst (embed_layout pre p) in
+  pre <= lab < pre + Z.max (palign p) 1 /\ lab mod Z.max (palign p) 1 = 0 /\ snd (embed_layout pre p) = lab + psize p /\
+  (forall k d s off, added cmds k d s off ->
+     (lab + off) mod s = 0 /\ lab + off + s <= snd (embed_layout pre p) /\ slice (cp_fill p) off s = slice d 0 s).
+Proof.
+  intros W G Hp p lab.
+  assert (L : pre <= lab < pre + Z.max (palign p) 1 /\ lab mod Z.max (palign p) 1 = 0).
+  { unfold lab, embed_layout. destruct (Z.leb_spec (palign p) 1); simpl.
+    - assert (E : Z.max (palign p) 1 = 1) by lia. rewrite E. split; [lia|apply Z.mod_1_r].
+    - rewrite Z.max_l by lia. destruct (align_up_diff_spec pre (palign p) ltac:(lia)). split; [lia|auto]. }
+  split; [apply L|]. split; [apply L|]. split; [reflexivity|].
+  intros k d s off A.
+  destruct (fill_exact_thm cmds W G) as (_ & FE & _).
+  destruct (size_alignment_cover_thm cmds W G) as (CV & _). destruct (CV k d s off A) as (C1 & C2 & C3). fold p in C1, C2, C3.
+  destruct (aligned_thm cmds k d s off W G A) as (V & _ & _).
+  assert (0 < s) by (destruct V as [->|[->|[->|[->|[->|[->| ->]]]]]]; lia).
+  split; [|split; [unfold lab, embed_layout; simpl; lia|apply FE with (k := k); auto]].
+  apply (embedded_aligned_thm cmds k d s off lab W G A). fold p.
+  destruct L as (_ & M). rewrite Z.max_l in M by lia. exact M.
+Qed.
+
 (* ---------------------------------------------------------------- the fuel of the model's loops never cuts them short *)
 Lemma share_loop_fuel fuel : forall extra ts ti ss pc data off,
   ss = pow2 ti -> (ti <= fuel + 2)%nat ->
@@ -580,6 +604,118 @@ Proof.
   intros extra. split.
   - intros. apply share_loop_fuel; auto. lia.
   - intros. unfold add_gap. apply add_gap_fuel. lia.
+Qed.
+
+(* ---------------------------------------------------------------- nothing of a freshly appended area is leaked *)
+(* when an add grows the pool, every new byte belongs either to the constant just placed or to a free gap that is
+   registered in the new state: ConstPool_addGap tiles the WHOLE alignment padding *)
+Theorem fresh_area_covered_thm p d s p' off x : Inv p -> wf_cmd d s -> cp_add p d s = (p', Ok off) ->
+  psize p <= x < psize p' ->
+  off <= x < off + s \/ exists i g, In g (nth i (gaps p') []) /\ fst g <= x < fst g + snd g.
+Proof.
+  intros I Wf E Hx. unfold cp_add in E.
+  destruct ((s <=? 0) || (64 <? s)) eqn:C1; [discriminate|].
+  destruct (negb (pow2 (ctz s) =? s)) eqn:C2; [discriminate|].
+  destruct (valid_size_inv s C1 C2) as (Lti & Es). symmetry in Es.
+  pose proof (pow2_gt0 (ctz s)) as Ps. rewrite <- Es in Ps.
+  destruct (tree_get _ _) as [n|]; [inversion E; subst; lia|].
+  destruct (gap_loop _ _ _ _ _) as (gs1, [o|]) eqn:GL.
+  - simpl in E. inversion E; subst p'. simpl in Hx. lia.
+  - assert (Hg : forall g, In g (nth (ctz s) (gaps p) []) -> snd g = s).
+    { intros g Hg. destruct (inv_gaps _ I _ g Hg) as (A & _). rewrite Es; auto. }
+    destruct (gap_loop_spec _ _ _ _ _ _ _ Hg GL) as (k & Egs & [(-> & _)|(g & _ & X)]); [|discriminate].
+    simpl in Egs. rewrite upd_nth_same in Egs. subst gs1.
+    simpl in E. inversion E; subst p' off. simpl in *. clear E.
+    destruct (align_up_diff_spec (psize p) s Ps) as (Hdiff & _).
+    set (diff := align_up_diff (psize p) s) in *.
+    destruct (Z.lt_ge_cases x (psize p + diff)); [|left; lia].
+    right. destruct (Z.eqb_spec diff 0); [lia|].
+    pose proof (inv_size _ I).
+    destruct (add_gap_spec (gaps p) (psize p) diff ltac:(lia) ltac:(lia) (inv_lg _ I)) as (new & P & _ & _ & _ & _ & CV).
+    destruct (CV x ltac:(lia)) as (g & Hg' & Cg).
+    assert (In g (concat (add_gap (gaps p) (psize p) diff))).
+    { apply (Permutation_in _ (Permutation_sym P)). apply in_or_app. left; auto. }
+    apply in_concat in H1. destruct H1 as (l & Hl & Hgl). destruct (in_nth_exists _ _ Hl) as (i & <-).
+    exists i, g. split; auto.
+Qed.
+
+(* ---------------------------------------------------------------- beyond the guard: Node::_offset is 32 bits wide *)
+(* a state that satisfies the whole representation invariant but holds 2^32 bytes: a fresh 8-byte constant is appended
+   at offset 2^32 and that is what add() returns; its node stores the offset truncated to 0, so adding the same constant
+   again returns 0 (not stable, not deduplicated) and fill() would write its bytes at 0 *)
+Definition pool_4g : pool := mkPool (repeat [] 7) (repeat [] 7) 4294967296 64 64.
+
+Lemma pool_4g_inv : Inv pool_4g.
+Proof.
+  assert (E : forall i, nth i (trees pool_4g) [] = []) by (intros; apply nth_repeat_nil).
+  assert (Eg : forall i, nth i (gaps pool_4g) [] = []) by (intros; apply nth_repeat_nil).
+  constructor.
+  - constructor.
+    + reflexivity.
+    + intros i n H. rewrite E in H. destruct H.
+    + intros i. rewrite E. constructor.
+    + intros i n H. rewrite E in H. destruct H.
+  - reflexivity.
+  - simpl; lia.
+  - intros i g H. rewrite Eg in H. destruct H.
+  - simpl. exact I.
+Qed.
+
+(* the same for EVERY state of 2^32 bytes (in particular the reachable ones): a new 8-byte constant that finds no free 8-byte gap *)
+Lemma gap_loop_empty n : forall ti s gs acc, nth ti gs [] = [] -> gap_loop n ti s gs acc = (gs, acc).
+Proof. induction n; intros ti s gs acc E; simpl; auto. unfold gap in *. rewrite E. auto. Qed.
+
+Lemma tree_get_insert_new t : forall M, tree_get t (n_key M) = None -> tree_get (tree_insert M t) (n_key M) = Some M.
+Proof.
+  assert (Self : forall M, key_eqb (n_key M) (n_key M) = true) by (intros; apply key_eqb_true; auto).
+  induction t as [|m t IH]; intros M G; unfold tree_get in *; simpl in *.
+  - rewrite Self. reflexivity.
+  - destruct (key_eqb (n_key M) (n_key m)) eqn:E; [discriminate|].
+    destruct (key_lt (n_key M) (n_key m)); simpl.
+    + rewrite Self. reflexivity.
+    + rewrite E. apply IH; auto.
+Qed.
+
+Theorem offset_truncation_general p d : Inv p -> psize p = 4294967296 -> 8 <= Z.of_nat (length d) ->
+  tree_get (nth 3 (trees p) []) (slice d 0 8) = None -> nth 3 (gaps p) [] = [] ->
+  snd (cp_add p d 8) = Ok 4294967296 /\ snd (cp_add (fst (cp_add p d 8)) d 8) = Ok 0.
+Proof.
+  intros I Ps Ld G Eg.
+  assert (L3 : (3 < length (trees p))%nat) by (rewrite (t_len _ _ (inv_trees _ I)); lia).
+  set (M := mkNode (slice d 0 8) (trunc32 (4294967296 + 0)) false).
+  set (ts1 := upd 3 (tree_insert M (nth 3 (trees p) [])) (trees p)).
+  set (ts2 := share_loop 7 ts1 3 8 1 d (4294967296 + 0)).
+  assert (E1 : cp_add p d 8 = (mkPool ts2 (gaps p) (4294967296 + 0 + 8) (Z.max (palign p) 8)
+                                 (if pmin p =? 0 then 8 else Z.min (pmin p) 8), Ok (4294967296 + 0))).
+  { unfold cp_add.
+    change ((8 <=? 0) || (64 <? 8)) with false. cbv iota.
+    change (ctz 8) with 3%nat. change (negb (pow2 3 =? 8)) with false. cbv iota.
+    rewrite G. rewrite (gap_loop_empty (6 - 3) 3 8 (gaps p) None Eg). cbv iota beta. rewrite Ps.
+    change (align_up_diff 4294967296 8) with 0. change (0 =? 0) with true. cbv iota beta. reflexivity. }
+  rewrite E1. simpl fst. simpl snd. split; [reflexivity|].
+  assert (E3 : nth 3 ts2 [] = tree_insert M (nth 3 (trees p) [])).
+  { unfold ts2. cbn [share_loop]. change (4 <? 8) with true. cbv iota. change (8 / 2) with 4. change (4 <? 4) with false. cbv iota.
+    unfold share_row. cbn [Nat.mul Nat.add seq fold_left Nat.pred].
+    assert (One : forall ts i, nth 3 (share_one 2 4 d (4294967296 + 0) ts i) [] = nth 3 ts []).
+    { intros ts i. unfold share_one. destruct (tree_get (nth 2 ts []) _); auto. apply nth_upd_neq. lia. }
+    rewrite !One. unfold ts1. apply nth_upd_eq. auto. }
+  unfold cp_add.
+  change ((8 <=? 0) || (64 <? 8)) with false. cbv iota.
+  change (ctz 8) with 3%nat. change (negb (pow2 3 =? 8)) with false. cbv iota.
+  cbn [trees]. rewrite E3.
+  pose proof (tree_get_insert_new (nth 3 (trees p) []) M G) as X. change (n_key M) with (slice d 0 8) in X.
+  rewrite X. reflexivity.
+Qed.
+
+Lemma offset_truncation_refuted :
+  exists p d s off off', Inv p /\ wf_cmd d s /\ psize p = 4294967296 /\
+    snd (cp_add p d s) = Ok off /\ snd (cp_add (fst (cp_add p d s)) d s) = Ok off' /\ off <> off' /\
+    psize (fst (cp_add p d s)) = 4294967304.
+Proof.
+  exists pool_4g, [1; 2; 3; 4; 5; 6; 7; 8], 8, 4294967296, 0.
+  split; [apply pool_4g_inv|]. split; [unfold wf_cmd; simpl; lia|].
+  split; [reflexivity|]. split; [vm_compute; reflexivity|]. split; [vm_compute; reflexivity|]. split; [discriminate|].
+  vm_compute; reflexivity.
 Qed.
 
 (* ---------------------------------------------------------------- satisfiability of the hypotheses, witnesses *)
